@@ -359,3 +359,37 @@ Section PcqTheorems.
       destruct todo as [|v r]; [reflexivity|]. destruct (q_empty s) eqn:Ee; [lia|discriminate].
   Qed.
 End PcqTheorems.
+
+(* ---- termination: every step of any thread decreases the sum of the threads' remaining work ---- *)
+Definition tw (t : qthread) : nat :=
+  match t with
+  | QProd pc todo => 5 * length todo + match pc with QPWait => 4 | QPLock => 3 | QPWrite => 2 | QPUnlock => 1 | QPPost => 0 end
+  | QCons pc want _ => 5 * want + match pc with QCWait => 4 | QCLock => 3 | QCRead => 2 | QCUnlock => 1 | QCPost => 0 end
+  end.
+
+Lemma pcq_step_decreases n s i s' : pcq_step n s i = Some s' -> wsum tw (q_threads s') < wsum tw (q_threads s).
+Proof.
+  intros H. unfold pcq_step in H.
+  destruct (nth_error (q_threads s) i) as [t|] eqn:Hnth; [|discriminate].
+  destruct t as [pc [|v rest]|pc [|w] got]; try discriminate.
+  - destruct pc;
+      repeat match type of H with
+             | context [match q_empty s with _ => _ end] => destruct (q_empty s)
+             | context [if ?c then _ else _] => destruct c
+             end; try discriminate; inversion H; subst s'; clear H; simpl; unfold q_set_thread;
+      match goal with |- wsum tw (list_upd _ _ ?t') < _ => pose proof (wsum_upd tw _ _ _ t' Hnth) as Hs end; simpl in Hs; lia.
+  - destruct pc;
+      repeat match type of H with
+             | context [match q_used s with _ => _ end] => destruct (q_used s)
+             | context [if ?c then _ else _] => destruct c
+             end; try discriminate; inversion H; subst s'; clear H; simpl; unfold q_set_thread;
+      match goal with |- wsum tw (list_upd _ _ ?t') < _ => pose proof (wsum_upd tw _ _ _ t' Hnth) as Hs end; simpl in Hs; lia.
+Qed.
+
+Lemma pcq_runs_bounded_proof n ls : forall s s', run (pcq_step n) s ls = Some s' -> length ls + wsum tw (q_threads s') <= wsum tw (q_threads s).
+Proof.
+  induction ls as [|l r IH]; intros s s0 H; simpl in H.
+  - inversion H; subst; simpl; lia.
+  - destruct (pcq_step n s l) as [s1|] eqn:E; [|discriminate].
+    pose proof (pcq_step_decreases _ _ _ _ E). pose proof (IH _ _ H). simpl. lia.
+Qed.
